@@ -39,7 +39,7 @@ func c13Tier(tier string) c13Params {
 		// the quick tier with the largest input of the thorough tier (used when trying seeded changes)
 		return c13Params{repoFlagSets: 1, deep: 2, uclass: 2, lrrec: 2, placement: 4, big: []int{1<<20 + 4096}, manyerrs: 2, gen: 10, genFree: 4, mut: 10, bytes: 4, faultsPer: 4, sessionLen: 24, realBinary: 2}
 	}
-	return c13Params{repoFlagSets: 1, deep: 12, uclass: 16, lrrec: 15, placement: placementCount, big: []int{70 << 10}, manyerrs: 8, gen: 70, genFree: 40, mut: 170, bytes: 30, faultsPer: 4, sessionLen: 24, realBinary: 12}
+	return c13Params{repoFlagSets: 1, deep: 12, uclass: 16, lrrec: lrShapeCount + 6, placement: placementCount, big: []int{70 << 10}, manyerrs: 8, gen: 70, genFree: 40, mut: 170, bytes: 30, faultsPer: 4, sessionLen: 24, realBinary: 12}
 }
 
 func c13Inputs(seed uint64, p c13Params, src string) []toolInput {
@@ -121,6 +121,18 @@ func c13Inputs(seed uint64, p c13Params, src string) []toolInput {
 	for i := 0; i < p.placement; i++ {
 		ins = append(ins, genPlacement(r, i))
 	}
+	// code blocks with //line directives and Go that does not parse: whatever the
+	// tool says about the format error, the line numbers it is told are not
+	// lines of anything it holds
+	for _, g := range []string{
+		"{\npackage p\n}\nA <- 'a' {\n//line big.go:100000\n\treturn nil nil\n}\n",
+		"{\npackage p\n//line init.go:99999\nvar x =\n}\nA <- 'a'\n",
+		"{\npackage p\n}\nA <- 'a' { /*line x.go:70000:1*/ return 1 2 }\n",
+		"{\npackage p\n}\nA <- 'a' {\n//line :0\n\treturn (\n}\n",
+		"{\npackage p\n}\nA <- 'a' {\n//line a.go:1\n\treturn nil, nil\n}\nB <- 'b' {\n//line b.go:4000000000\n\treturn ,\n}\n",
+	} {
+		ins = append(ins, toolInput{Name: "linedir", Class: "gen", Grammar: []byte(g), Rules: []string{"A"}, Flags: drawFlags(r, []string{"A"}, false)})
+	}
 	for i := 0; i < p.manyerrs; i++ {
 		ins = append(ins, genManyErrors(r, []int{3, 40, 120, 130, 300, 1100}[i%6]))
 	}
@@ -184,6 +196,9 @@ func c13Judge(in toolInput, kind string, c *tooldriver.Case, o outcome, base *ou
 	run := &o.Res.Runs[0]
 	if run.StepCapHit {
 		return "not-bounded", fmt.Sprintf("the tool did not finish within the logical-time bound of %d instrumentation steps (5 million + 50 000 per grammar byte; the grammar has %d bytes)", c.StepCap, caseInputLen(c))
+	}
+	if run.Blocked != "" {
+		return "hang", "the tool blocked for ever: " + run.Blocked
 	}
 	if run.Panic != "" {
 		return "panic", "Go panic escaped main: " + firstLine(run.Panic)
@@ -402,7 +417,9 @@ func runC13(tier string) int {
 			// in a directory that does not exist yet
 			dd := delivery{viaFile: true, outFile: true}
 			dd.inName = r.pick([]string{"Pegfile", "g", "dir.d/grammar", "grammar.v2.peg", ".peg", "src/calc.peg", "grammar.peg"})
-			switch r.intn(6) {
+			switch r.intn(7) {
+			case 6:
+				dd.outArg = "/dev/stdout" // a name of the standard output: a pipe, not a file
 			case 0:
 				dd.outArg, dd.dirs = "out", []string{"out"}
 			case 1:
